@@ -212,6 +212,8 @@ theorem noteLabel_unst (s s' : DC) (x : Xml) (k : String) (h : Unst s) (he : not
   split at he
   · have := pure_ok he; subst this; exact h
   · obtain ⟨id, _, he⟩ := bind_ok he
+    obtain ⟨s0, h0, he⟩ := bind_ok he
+    have h := flushImplicit_preserves concludePar_unst s s0 _ h h0
     have := pure_ok he; subst this
     refine ⟨h.tree, h.open_, ?_⟩
     intro r hr
